@@ -1,7 +1,9 @@
 package main
 
 // C06 — validator-set updates. Drives real epochs through app.EndBlock with 1–8 operators
-// whose powers change through real deposits / delegations / undelegations, key replacements,
+// whose powers change through real deposits / delegations / undelegations, key replacements
+// (fresh keys, somebody's keys, and the operator's OWN FORMER keys: taken back in the same epoch,
+// while the old key waits to be pruned, in the block that prunes it, and afterwards),
 // opt-outs / opt-ins, jailing and changes of MaxValidators, and compares
 //   * ResponseEndBlock.ValidatorUpdates, the stored set / total / stored updates with the Lean
 //     model `ExoVerif.ValSet.endBlockEpoch` (op lines `vs.epoch` / `vs.block`), and
@@ -90,12 +92,235 @@ func (w *World) vsObs(ctx sdk.Context, ups []abci.ValidatorUpdate) string {
 
 var vsAmounts = []int64{1, 999_999, 1_000_000, 1_000_001, 1_500_000, 2_000_000, 10_000_000, 50_000_000, 99_999_999, 100_000_000, 100_000_001, 250_000_000}
 
+// vsRun = one history of the valset domain: the world, the op lines emitted so far (the replay),
+// CometBFT's copy of the validator set and the bookkeeping of the generator.
+type vsRun struct {
+	w    *World
+	env  *Env
+	hist []string
+	// CometBFT's copy: starts as the set InitChain returned, changed only by the returned updates
+	comet              map[int]int64
+	epochsDone, changes int
+	held               map[string]int64 // staker|op -> base units delegated through the harness
+	former             map[int][]int    // operator -> keys it used before (candidates for "take the key back")
+	deferred           []Violation      // violated hypotheses, reported after the clause violations of the history
+}
+
+// later: a violated hypothesis of the theorems (C06.inputs) is reported at the end of the history,
+// so that a clause of the property that fails a few blocks later in the same history comes first
+// (./check writes the first violation's history to the replay file); once per (history, sig).
+func (r *vsRun) later(mon, sig, what string, hist []string) {
+	for _, v := range r.deferred {
+		if v.Sig == sig {
+			return
+		}
+	}
+	r.deferred = append(r.deferred, Violation{Monitor: mon, Sig: sig, What: what, History: append([]string{}, hist...)})
+}
+
+func (r *vsRun) finish() {
+	for _, v := range r.deferred {
+		r.env.Violate(v.Monitor, v.Sig, v.What, v.History)
+	}
+	r.deferred = nil
+}
+
+func newVsRun(env *Env, w *World) *vsRun {
+	r := &vsRun{w: w, env: env, held: map[string]int64{}, former: map[int][]int{}}
+	sk := w.C.App.StakingKeeper
+	r.emit("vs.reset", "ok")
+	r.comet = w.ValSet(w.C.Ctx) // InitChain returned exactly the genesis set
+	iv := fmtIntMap(r.comet)
+	if iv == "" {
+		iv = "-"
+	}
+	r.emit(fmt.Sprintf("vs.init %s %s", sk.GetLastTotalPower(w.C.Ctx).String(), iv), "ok")
+	return r
+}
+
+func (r *vsRun) emit(op, obs string) {
+	r.env.Op(op, obs)
+	r.hist = append(r.hist, op)
+}
+
+// note records an operation that the model does not replay (it sees its effect through the
+// candidate list of the next epoch) as a comment line of the history, with every argument needed
+// to repeat it by hand.
+func (r *vsRun) note(what string, op int, detail string, err error) {
+	r.env.Outcome(what + "=" + errClass(err))
+	if detail != "" {
+		detail = " " + detail
+	}
+	r.hist = append(r.hist, fmt.Sprintf("# %s op=%d%s -> %s", what, op, detail, errClass(err)))
+}
+
+// block ends the current block (EndBlock, Commit, BeginBlock after d), hands the epoch's
+// candidates to the model and evaluates the clauses of C06 on the real state. false = halted.
+func (r *vsRun) block(d time.Duration) bool {
+	w, env := r.w, r.env
+	c := w.C
+	sk := c.App.StakingKeeper
+	isEnd := sk.IsEpochEnd(c.Ctx)
+	prevStored := w.ValSet(c.Ctx)
+	prevTotal := sk.GetLastTotalPower(c.Ctx)
+	maxVals := sk.GetMaxValidators(c.Ctx)
+	var cands []vsCand
+	var active []string
+	if isEnd {
+		cands, active = w.eligibleAtEndBlock()
+		w.jailViewAtEndBlock(env, r.hist)
+	}
+	res := c.EndAndBegin(d)
+	if res.Halt != "" {
+		env.Violate("C06.halt", "halt", "block processing panicked: "+res.Halt, r.hist)
+		return false
+	}
+	ups := res.End.ValidatorUpdates
+	if isEnd {
+		parts := make([]string, len(cands))
+		for i, cd := range cands {
+			rv := 0
+			if cd.rev {
+				rv = 1
+			}
+			parts[i] = fmt.Sprintf("%d:%d:%d:%d", cd.op, cd.key, cd.power, rv)
+		}
+		cs := strings.Join(parts, ",")
+		if cs == "" {
+			cs = "-"
+		}
+		r.emit(fmt.Sprintf("vs.epoch %d %s", maxVals, cs), w.vsObs(c.Ctx, ups))
+		r.epochsDone++
+	} else {
+		r.emit("vs.block", w.vsObs(c.Ctx, ups))
+	}
+	hist := r.hist
+	comet := r.comet
+
+	// ---- monitors (independent of the model)
+	env.Eval("C06.updates")
+	seen := map[int]bool{}
+	for i, u := range ups {
+		k := w.KeyID(keytypes.NewWrappedConsKeyFromTmProtoKey(&ups[i].PubKey).ToConsAddr())
+		if seen[k] {
+			env.Violate("C06.updates", "dup-key", fmt.Sprintf("key %d twice in the update list %s", k, w.fmtUpdates(ups)), hist)
+		}
+		seen[k] = true
+		_, known := comet[k]
+		switch {
+		case u.Power < 0:
+			env.Violate("C06.updates", "negative-power", fmt.Sprintf("key %d power %d", k, u.Power), hist)
+		case u.Power == 0 && !known:
+			env.Violate("C06.updates", "unknown-remove", fmt.Sprintf("removal of key %d which consensus does not have (%s)", k, w.fmtUpdates(ups)), hist)
+		case u.Power == 0:
+			delete(comet, k)
+		default:
+			comet[k] = u.Power
+		}
+		if i > 0 { // order: power desc, then PubKey.String() desc (= key id desc), strictly
+			p := ups[i-1]
+			pk := w.KeyID(keytypes.NewWrappedConsKeyFromTmProtoKey(&ups[i-1].PubKey).ToConsAddr())
+			if !(p.Power > u.Power || (p.Power == u.Power && pk > k)) {
+				env.Violate("C06.updates", "order", "update list not strictly ordered: "+w.fmtUpdates(ups), hist)
+			}
+		}
+	}
+	if !isEnd && len(ups) != 0 {
+		env.Violate("C06.updates", "nonepoch-nonempty", "updates in a block that does not close an epoch: "+w.fmtUpdates(ups), hist)
+	}
+	stored := w.ValSet(c.Ctx)
+	env.Eval("C06.agree")
+	if fmtIntMap(stored) != fmtIntMap(comet) {
+		env.Violate("C06.agree", "set-mismatch", fmt.Sprintf("stored set %s but consensus has %s", fmtIntMap(stored), fmtIntMap(comet)), hist)
+		r.comet = w.ValSet(c.Ctx) // resynchronise so that one defect is reported once
+		comet = r.comet
+	}
+	if w.fmtUpdates(sk.GetValidatorUpdates(c.Ctx)) != w.fmtUpdates(ups) {
+		env.Violate("C06.agree", "stored-updates-mismatch", "GetValidatorUpdates differs from what EndBlock returned", hist)
+	}
+	sum := int64(0)
+	for _, p := range stored {
+		sum += p
+		if p < 1 {
+			env.Violate("C06.agree", "stored-nonpositive", "a stored validator has power < 1", hist)
+		}
+	}
+	if !sk.GetLastTotalPower(c.Ctx).Equal(sdkmath.NewInt(sum)) {
+		env.Violate("C06.agree", "total-mismatch", fmt.Sprintf("LastTotalPower %s but the set sums to %d", sk.GetLastTotalPower(c.Ctx), sum), hist)
+	}
+	if isEnd {
+		// ---- the hypotheses under which the C06 theorems speak about this block (InputsOK): every
+		// candidate's key has its reverse lookup when ApplyValidatorChanges runs (otherwise a
+		// re-powered validator is written to the store and NOT handed to consensus), and no two
+		// candidates share a key (otherwise the list names a key twice)
+		env.Eval("C06.inputs")
+		byKey := map[int]int{}
+		for _, cd := range cands {
+			if !cd.rev {
+				r.later("C06.inputs", "candidate-unresolvable", fmt.Sprintf("operator %d is a candidate with key %d (power %d, in the stored set: %v) but the key's cons-address -> operator lookup is gone when EndBlock applies the changes", cd.op, cd.key, cd.power, w.InValSet(c.Ctx, cd.key)), hist)
+			}
+			if o, dup := byKey[cd.key]; dup {
+				r.later("C06.inputs", "candidate-key-shared", fmt.Sprintf("operators %d and %d are both candidates with key %d", o, cd.op, cd.key), hist)
+			}
+			byKey[cd.key] = cd.op
+		}
+		env.Eval("C06.topk")
+		// eligible per-operator view vs the operator module's own list
+		var mine []string
+		for _, cd := range cands {
+			mine = append(mine, fmt.Sprintf("%d:%d", cd.op, cd.key))
+		}
+		sort.Strings(mine)
+		if strings.Join(mine, ",") != strings.Join(active, ",") {
+			env.Violate("C06.topk", "eligible-mismatch", fmt.Sprintf("GetActiveOperatorsForChainID %v but per-operator state says %v", active, mine), hist)
+		}
+		srt := append([]vsCand{}, cands...)
+		sort.SliceStable(srt, func(i, j int) bool {
+			if srt[i].power != srt[j].power {
+				return srt[i].power > srt[j].power
+			}
+			return bytes.Compare(w.Ops[srt[i].op].Acc, w.Ops[srt[j].op].Acc) < 0
+		})
+		want := map[int]int64{}
+		for i, cd := range srt {
+			if i >= int(maxVals) || cd.power < 1 {
+				break
+			}
+			want[cd.key] = cd.power
+		}
+		if fmtIntMap(want) != fmtIntMap(stored) {
+			env.Violate("C06.topk", "not-topk", fmt.Sprintf("set after the epoch is %s, eligible top-%d is %s (candidates %v)", fmtIntMap(stored), maxVals, fmtIntMap(want), cands), hist)
+		}
+		// what consensus holds (previous set + every returned list) against the eligible top set
+		if fmtIntMap(want) != fmtIntMap(comet) {
+			env.Violate("C06.topk", "consensus-not-topk", fmt.Sprintf("consensus holds %s after the epoch, eligible top-%d is %s (candidates %v)", fmtIntMap(comet), maxVals, fmtIntMap(want), cands), hist)
+		}
+		if fmtIntMap(prevStored) != fmtIntMap(stored) {
+			r.changes++
+		}
+		ties := false
+		for i := 1; i < len(srt); i++ {
+			if srt[i].power == srt[i-1].power {
+				ties = true
+			}
+		}
+		// does the cap cut through a tie group? (then the address tie-break decides who validates)
+		cut := int(maxVals) < len(srt) && int(maxVals) > 0 && srt[maxVals-1].power == srt[maxVals].power && srt[maxVals].power >= 1
+		env.Outcome(fmt.Sprintf("epoch:cands=%d,max=%d,ties=%v,over=%v,changed=%v", len(cands), maxVals, ties, len(cands) > int(maxVals), fmtIntMap(prevStored) != fmtIntMap(stored)))
+		env.Note(fmt.Sprintf("population:cands>12=%v,cap-inside-tie-group=%v", len(cands) > 12, cut))
+	} else if fmtIntMap(prevStored) != fmtIntMap(stored) || !prevTotal.Equal(sk.GetLastTotalPower(c.Ctx)) {
+		env.Violate("C06.agree", "nonepoch-change", "validator set or total power changed in a block that does not close an epoch", hist)
+	}
+	return true
+}
+
 func domValset(env *Env) error {
 	n := env.Int("histories", 30)
 	maxEpochs := env.Int("epochs", 12)
 	rng := NewRNG(env.Report.Seed)
 	env.Report.Domain = "valset"
 	scenarioGenesisZeroPower(env) // dom_valset_genesis.go (no op lines: InitChain is outside the model)
+	scenarioKeyTakeBack(env)      // dom_valset_keys.go
 	for hi := 0; hi < n; hi++ {
 		cfg := DefaultCfg(env.Report.Seed*1000 + uint64(hi))
 		nGen := rng.Range(1, 5)
@@ -105,6 +330,10 @@ func domValset(env *Env) error {
 		// insertion sort to pdqsort above 12 elements, and the tie-break only matters when the
 		// cap falls inside a tie group.
 		big := rng.Chance(1, 5)
+		// "key churn" histories (about one in four of the others): one validating operator keeps
+		// replacing its key and going back to keys it used before, while its power moves; the
+		// history runs past the unbonding period so that replaced keys are pruned inside it.
+		churn := !big && rng.Chance(1, 4)
 		cfg.NOperators = nGen
 		cfg.Powers = nil
 		for i := 0; i < nGen; i++ {
@@ -129,21 +358,10 @@ func domValset(env *Env) error {
 		w := NewWorld(cfg, nOps, nOps+4)
 		c := w.C
 		sk := c.App.StakingKeeper
-		var hist []string
-		emit := func(op, obs string) {
-			env.Op(op, obs)
-			hist = append(hist, op)
-		}
-		emit("vs.reset", "ok")
-		comet := w.ValSet(c.Ctx) // CometBFT's copy: InitChain returned exactly the genesis set
-		iv := fmtIntMap(comet)
-		if iv == "" {
-			iv = "-"
-		}
-		emit(fmt.Sprintf("vs.init %s %s", sk.GetLastTotalPower(c.Ctx).String(), iv), "ok")
+		r := newVsRun(env, w)
+		held := r.held
 
 		// setup: most late operators register, self-delegate around the minimum and opt in
-		held := map[string]int64{} // staker|op -> base units delegated through the harness
 		minBase := cfg.MinSelfDelegation * 1_000_000
 		for op := range w.Ops {
 			if w.Reg[op] || (!big && rng.Chance(1, 4)) {
@@ -159,51 +377,80 @@ func domValset(env *Env) error {
 			if amt < 1 {
 				amt = 1
 			}
-			if w.DepositDelegate(w.Ops[op].Eth, op, sdkmath.NewInt(amt), true) == nil {
+			err := w.DepositDelegate(w.Ops[op].Eth, op, sdkmath.NewInt(amt), true)
+			if err == nil {
 				held[fmt.Sprintf("%s|%d", w.Ops[op].Eth, op)] += amt
 			}
+			r.hist = append(r.hist, fmt.Sprintf("# setup register op=%d self-delegate amt=%d -> %s", op, amt, errClass(err)))
 			key := rng.Intn(len(w.Keys))
 			if big { // a key nobody has, so that (nearly) everybody becomes a candidate
-				for k := range w.Keys {
-					if w.RevOp(c.Ctx, k) < 0 {
-						key = k
-						break
-					}
+				if k := r.freeKey(rng); k >= 0 {
+					key = k
 				}
 			}
-			env.Outcome("setup-optin=" + errClass(w.OptIn(op, key)))
+			env.Outcome("setup-optin=" + errClass(r.optIn(op, key)))
 		}
 		if big { // the cap falls inside the tie group
 			mv := uint32(rng.Range(3, len(w.Ops)-3))
 			w.SetDogfoodParams(func(p *dogfoodtypes.Params) { p.MaxValidators = mv })
+			r.hist = append(r.hist, fmt.Sprintf("# maxvals %d", mv))
 			env.Outcome("big-population")
 		}
 		nEpochs := rng.Range(3, maxEpochs)
-		epochsDone, changes := 0, 0
-		for epochsDone < nEpochs {
+		churnOp := -1
+		if churn {
+			if lo := int(cfg.EpochsUntilUnbonded) + 4; nEpochs < lo {
+				nEpochs = lo
+			}
+			var vals []int
+			for op := range w.Ops {
+				if w.Reg[op] && w.InValSet(c.Ctx, w.CurKey(c.Ctx, op)) {
+					vals = append(vals, op)
+				}
+			}
+			if len(vals) > 0 {
+				churnOp = vals[rng.Intn(len(vals))]
+			}
+			env.Outcome("key-churn-history")
+		}
+		halted := false
+		for r.epochsDone < nEpochs && !halted {
+			// ---- key churn: replace / take back / re-power the chosen validator
+			if churnOp >= 0 {
+				if rng.Chance(1, 2) {
+					r.setKey(churnOp, r.pickKey(rng, churnOp, 3))
+				}
+				if rng.Chance(1, 3) {
+					amt := vsAmounts[rng.Intn(len(vsAmounts))]
+					st := w.Stakers[rng.Intn(len(w.Stakers))].Eth
+					err := w.DepositDelegate(st, churnOp, sdkmath.NewInt(amt), false)
+					if err == nil {
+						held[fmt.Sprintf("%s|%d", st, churnOp)] += amt
+					}
+					r.note("delegate", churnOp, fmt.Sprintf("staker=%s amt=%d", st.Hex()[:10], amt), err)
+				}
+			}
 			// ---- a few operations inside the current block
 			for k := rng.Intn(4); k > 0; k-- {
 				op := rng.Intn(len(w.Ops))
-				var what string
-				var err error
 				switch rng.Pick(4, 3, 3, 2, 2, 2, 2, 1) {
 				case 0: // deposit + delegate (self or third party)
 					if !w.Reg[op] {
-						err = w.Register(op)
-						what = "register"
+						r.note("register", op, "", w.Register(op))
 						break
 					}
 					amt := sdkmath.NewInt(vsAmounts[rng.Intn(len(vsAmounts))])
 					st := w.Stakers[rng.Intn(len(w.Stakers))].Eth
-					what = "delegate"
+					what := "delegate"
 					if rng.Bool() {
 						st = w.Ops[op].Eth
 						what = "self-delegate"
 					}
-					err = w.DepositDelegate(st, op, amt, what == "self-delegate")
+					err := w.DepositDelegate(st, op, amt, what == "self-delegate")
 					if err == nil {
 						held[fmt.Sprintf("%s|%d", st, op)] += amt.Int64()
 					}
+					r.note(what, op, fmt.Sprintf("staker=%s amt=%s", st.Hex()[:10], amt), err)
 				case 1: // undelegate (steered away from F-07a: never from an operator that is removing its key)
 					if !w.Reg[op] || w.Removing(c.Ctx, op) {
 						continue
@@ -228,29 +475,31 @@ func domValset(env *Env) error {
 					if ua < 1 {
 						ua = 1
 					}
-					_, err = w.Undelegate(st, op, sdkmath.NewInt(ua))
+					_, err := w.Undelegate(st, op, sdkmath.NewInt(ua))
 					if err == nil {
 						held[hk] = have - ua
 					}
-					what = "undelegate"
-				case 2: // opt in with a key (fresh or somebody's)
+					r.note("undelegate", op, fmt.Sprintf("staker=%s amt=%d", st.Hex()[:10], ua), err)
+				case 2: // opt in with a key (fresh, somebody's, or one the operator used before)
 					if !w.Reg[op] {
 						continue
 					}
-					err = w.OptIn(op, rng.Intn(len(w.Keys)))
-					what = "optin"
+					r.optIn(op, r.pickKey(rng, op, 1))
 				case 3: // replace key
 					if !w.Reg[op] {
 						continue
 					}
-					err = w.SetKey(op, rng.Intn(len(w.Keys)))
-					what = "setkey"
+					r.setKey(op, r.pickKey(rng, op, 2))
 				case 4: // opt out — only once the key is active (F-07a trigger avoided, see C07)
 					if !w.Reg[op] || !w.InValSet(c.Ctx, w.CurKey(c.Ctx, op)) {
 						continue
 					}
-					err = w.OptOut(op)
-					what = "optout"
+					cur := w.CurKey(c.Ctx, op)
+					err := w.OptOut(op)
+					if err == nil {
+						r.remember(op, cur)
+					}
+					r.note("optout", op, fmt.Sprintf("key=%d", cur), err)
 				case 5: // jail / unjail through the staking interface the slashing module uses
 					key := w.CurKey(c.Ctx, op)
 					if key < 0 {
@@ -258,13 +507,12 @@ func domValset(env *Env) error {
 					}
 					if rng.Bool() {
 						sk.Jail(c.Ctx, w.Keys[key].ToConsAddr())
-						what = "jail"
+						r.note("jail", op, fmt.Sprintf("key=%d", key), nil)
 					} else if rng.Bool() { // the way an operator gets out: MsgUnjail of x/slashing
-						err = w.UnjailMsg(op)
-						what = "unjailmsg"
+						r.note("unjailmsg", op, "", w.UnjailMsg(op))
 					} else {
 						sk.Unjail(c.Ctx, w.Keys[key].ToConsAddr())
-						what = "unjail"
+						r.note("unjail", op, fmt.Sprintf("key=%d", key), nil)
 					}
 				case 6: // change the maximum
 					mv := uint32(rng.Range(1, len(w.Ops)+1))
@@ -272,160 +520,30 @@ func domValset(env *Env) error {
 						mv = uint32(rng.Range(1, 3))
 					}
 					w.SetDogfoodParams(func(p *dogfoodtypes.Params) { p.MaxValidators = mv })
-					what = "maxvals"
+					r.note("maxvals", op, fmt.Sprintf("max=%d", mv), nil)
 				case 7: // register a late operator
 					if w.Reg[op] {
 						continue
 					}
-					err = w.Register(op)
-					what = "register"
+					r.note("register", op, "", w.Register(op))
 				}
-				env.Outcome(what + "=" + errClass(err))
-				hist = append(hist, fmt.Sprintf("# %s op=%d -> %s", what, op, errClass(err)))
 			}
 			// ---- end of the block
-			isEnd := sk.IsEpochEnd(c.Ctx)
-			prevStored := w.ValSet(c.Ctx)
-			prevTotal := sk.GetLastTotalPower(c.Ctx)
-			maxVals := sk.GetMaxValidators(c.Ctx)
-			var cands []vsCand
-			var active []string
-			if isEnd {
-				cands, active = w.eligibleAtEndBlock()
-				w.jailViewAtEndBlock(env, hist)
-			}
 			var d time.Duration
 			if rng.Chance(2, 3) {
 				d = w.EpochDur + time.Duration(1+rng.Intn(5))*time.Second
 			} else {
 				d = time.Duration(1+rng.Intn(5)) * time.Second
 			}
-			r := c.EndAndBegin(d)
-			if r.Halt != "" {
-				env.Violate("C06.halt", "halt", "block processing panicked: "+r.Halt, hist)
-				break
-			}
-			ups := r.End.ValidatorUpdates
-			if isEnd {
-				parts := make([]string, len(cands))
-				for i, cd := range cands {
-					rv := 0
-					if cd.rev {
-						rv = 1
-					}
-					parts[i] = fmt.Sprintf("%d:%d:%d:%d", cd.op, cd.key, cd.power, rv)
-				}
-				cs := strings.Join(parts, ",")
-				if cs == "" {
-					cs = "-"
-				}
-				emit(fmt.Sprintf("vs.epoch %d %s", maxVals, cs), w.vsObs(c.Ctx, ups))
-				epochsDone++
-			} else {
-				emit("vs.block", w.vsObs(c.Ctx, ups))
-			}
-
-			// ---- monitors (independent of the model)
-			env.Eval("C06.updates")
-			seen := map[int]bool{}
-			for i, u := range ups {
-				k := w.KeyID(keytypes.NewWrappedConsKeyFromTmProtoKey(&ups[i].PubKey).ToConsAddr())
-				if seen[k] {
-					env.Violate("C06.updates", "dup-key", fmt.Sprintf("key %d twice in the update list %s", k, w.fmtUpdates(ups)), hist)
-				}
-				seen[k] = true
-				_, known := comet[k]
-				switch {
-				case u.Power < 0:
-					env.Violate("C06.updates", "negative-power", fmt.Sprintf("key %d power %d", k, u.Power), hist)
-				case u.Power == 0 && !known:
-					env.Violate("C06.updates", "unknown-remove", fmt.Sprintf("removal of key %d which consensus does not have (%s)", k, w.fmtUpdates(ups)), hist)
-				case u.Power == 0:
-					delete(comet, k)
-				default:
-					comet[k] = u.Power
-				}
-				if i > 0 { // order: power desc, then PubKey.String() desc (= key id desc), strictly
-					p := ups[i-1]
-					pk := w.KeyID(keytypes.NewWrappedConsKeyFromTmProtoKey(&ups[i-1].PubKey).ToConsAddr())
-					if !(p.Power > u.Power || (p.Power == u.Power && pk > k)) {
-						env.Violate("C06.updates", "order", "update list not strictly ordered: "+w.fmtUpdates(ups), hist)
-					}
-				}
-			}
-			if !isEnd && len(ups) != 0 {
-				env.Violate("C06.updates", "nonepoch-nonempty", "updates in a block that does not close an epoch: "+w.fmtUpdates(ups), hist)
-			}
-			stored := w.ValSet(c.Ctx)
-			env.Eval("C06.agree")
-			if fmtIntMap(stored) != fmtIntMap(comet) {
-				env.Violate("C06.agree", "set-mismatch", fmt.Sprintf("stored set %s but consensus has %s", fmtIntMap(stored), fmtIntMap(comet)), hist)
-				comet = w.ValSet(c.Ctx) // resynchronise so that one defect is reported once
-			}
-			if w.fmtUpdates(sk.GetValidatorUpdates(c.Ctx)) != w.fmtUpdates(ups) {
-				env.Violate("C06.agree", "stored-updates-mismatch", "GetValidatorUpdates differs from what EndBlock returned", hist)
-			}
-			sum := int64(0)
-			for _, p := range stored {
-				sum += p
-				if p < 1 {
-					env.Violate("C06.agree", "stored-nonpositive", "a stored validator has power < 1", hist)
-				}
-			}
-			if !sk.GetLastTotalPower(c.Ctx).Equal(sdkmath.NewInt(sum)) {
-				env.Violate("C06.agree", "total-mismatch", fmt.Sprintf("LastTotalPower %s but the set sums to %d", sk.GetLastTotalPower(c.Ctx), sum), hist)
-			}
-			if isEnd {
-				env.Eval("C06.topk")
-				// eligible per-operator view vs the operator module's own list
-				var mine []string
-				for _, cd := range cands {
-					mine = append(mine, fmt.Sprintf("%d:%d", cd.op, cd.key))
-				}
-				sort.Strings(mine)
-				if strings.Join(mine, ",") != strings.Join(active, ",") {
-					env.Violate("C06.topk", "eligible-mismatch", fmt.Sprintf("GetActiveOperatorsForChainID %v but per-operator state says %v", active, mine), hist)
-				}
-				srt := append([]vsCand{}, cands...)
-				sort.SliceStable(srt, func(i, j int) bool {
-					if srt[i].power != srt[j].power {
-						return srt[i].power > srt[j].power
-					}
-					return bytes.Compare(w.Ops[srt[i].op].Acc, w.Ops[srt[j].op].Acc) < 0
-				})
-				want := map[int]int64{}
-				for i, cd := range srt {
-					if i >= int(maxVals) || cd.power < 1 {
-						break
-					}
-					want[cd.key] = cd.power
-				}
-				if fmtIntMap(want) != fmtIntMap(stored) {
-					env.Violate("C06.topk", "not-topk", fmt.Sprintf("set after the epoch is %s, eligible top-%d is %s (candidates %v)", fmtIntMap(stored), maxVals, fmtIntMap(want), cands), hist)
-				}
-				if fmtIntMap(prevStored) != fmtIntMap(stored) {
-					changes++
-				}
-				ties := false
-				for i := 1; i < len(srt); i++ {
-					if srt[i].power == srt[i-1].power {
-						ties = true
-					}
-				}
-				// does the cap cut through a tie group? (then the address tie-break decides who validates)
-				cut := int(maxVals) < len(srt) && int(maxVals) > 0 && srt[maxVals-1].power == srt[maxVals].power && srt[maxVals].power >= 1
-				env.Outcome(fmt.Sprintf("epoch:cands=%d,max=%d,ties=%v,over=%v,changed=%v", len(cands), maxVals, ties, len(cands) > int(maxVals), fmtIntMap(prevStored) != fmtIntMap(stored)))
-				env.Note(fmt.Sprintf("population:cands>12=%v,cap-inside-tie-group=%v", len(cands) > 12, cut))
-			} else if fmtIntMap(prevStored) != fmtIntMap(stored) || !prevTotal.Equal(sk.GetLastTotalPower(c.Ctx)) {
-				env.Violate("C06.agree", "nonepoch-change", "validator set or total power changed in a block that does not close an epoch", hist)
-			}
+			halted = !r.block(d)
 		}
+		r.finish()
 		env.Report.Histories++
-		if changes > 0 {
-			env.DistinctKey(fmt.Sprintf("h%d-%d-%d", hi, epochsDone, changes))
+		if r.changes > 0 {
+			env.DistinctKey(fmt.Sprintf("h%d-%d-%d", hi, r.epochsDone, r.changes))
 		}
 		if hi < 2 {
-			env.Sample(strings.Join(hist[:min(len(hist), 16)], " ; "))
+			env.Sample(strings.Join(r.hist[:min(len(r.hist), 16)], " ; "))
 		}
 	}
 	return nil
